@@ -58,6 +58,7 @@ def slToSexp (s : Sl) : Sexp := Sexp.ofNats [s.start, s.stop, s.step, s.dtype, s
   C04 gdecide ("input"…) (("key" (var "x")|int|real|affine|lzy)…)   the chain of branches Gaussian.eager_subs takes
   C04 mpdecide (("bound" "visible")…) (("key" "x"|none)…)  MarkovProduct/Scatter.eager_subs decision on names
   C04 gsubs head|order INS rank (w) ((row)…) (("k" (vals))…) (xa)   Gaussian real substitution, pairs in the given order
+  C04 callpairs ("input"…) ("argtoken"…) (("key" "token")…)   the merged pairs of Funsor.__call__: `ok (("key" "token")…)`
 -/
 def handle (args : List Sexp) : String :=
   match args with
@@ -189,6 +190,13 @@ def handle (args : List Sexp) : String :=
       | some (k, l) => "ok " ++ toString (Sexp.ofNats [k, l])
       | none => "ok none"
     | _, _ => "err bad-args"
+  | [Sexp.atom "callpairs", ins, args, kw] =>
+    match ins.asStrs?, args.asStrs?, kw.asList?.bind (·.mapM fun x => match x with
+            | Sexp.list [k, v] => do pure ((← k.asStr?), (← v.asStr?))
+            | _ => none) with
+    | some ins, some args, some kw =>
+      "ok " ++ toString (Sexp.list ((callPairs ins args kw).map fun p => Sexp.list [Sexp.str p.1, Sexp.str p.2]))
+    | _, _, _ => "err bad-args"
   | _ => "err bad-request"
 
 end FV.Drv.C04
